@@ -774,7 +774,8 @@ class UnitCalculator(object):
                     to_units = actual_units  # Use units of the first piece for subsequent ones
                 new_args.append((new_piece, new_cond))
             if was_converted and new_args:
-                expr = expr.func(*new_args)
+                # Only the operands change: don't let Sympy re-canonicalise the conditions (it can recurse forever)
+                expr = expr.func(*new_args, evaluate=False)
         elif expr.is_Function:
             if expr.func in [sympy.floor, sympy.ceiling, sympy.Abs]:
                 # Push any needed conversion to the argument(s)
